@@ -514,6 +514,14 @@ def resolve(prog, overrides=None, executable=True, anon=False):
     for m in prog["macros"]:
         ps = set(m["params"])
         for s in walk([m["body"]]):
+            if s["k"] in ("loop", "sub"):
+                c_ = s.get("count")
+                if isinstance(c_, str) and c_ not in ps:
+                    if c_ not in lets:
+                        raise Invalid("unknown count %s in macro" % c_)
+                    c_ = lets[c_]
+                if c_ is not None and not isinstance(c_, str) and (not _is_intlike(c_) or c_ < 0):
+                    raise Invalid("bad count in macro definition")
             if s["k"] != "gate":
                 continue
             base_ = GS.base_name(s["name"])
